@@ -2,7 +2,7 @@
 the parser hands back."""
 from ..syn import nodes, ident_of, path_str, method_chain, unparse, lit_of
 from ..tok import extract as tok_extract
-from ..mir import Mir, Exprs, strip_transparent, E
+from ..mir import Mir, Exprs, strip_transparent, E, canon
 
 
 def token_lexemes(syn, tf):
@@ -247,6 +247,30 @@ def check_wiring(ctx, res):
         ta = ta.a[0]
     if not (ta.k == "param" and ta.a[0] == 1):
         res.violate(rule, "tokenizer-src", tok_call.where, "the tokenizer and the error conversion do not see the same text: tokenizer gets %r" % ta)
+    # no exit between the stages other than their own `?`: every stage call in generate is control-dependent
+    # only on Try::branch switches, and generate builds no error of its own
+    from ..mir import control_deps_transitive
+    cdt = control_deps_transitive(g)
+    for c in (tok_call, parse_call):
+        for (a, s_) in cdt.get(c.bb, ()):
+            t_ = g.blocks[a]["term"]
+            if t_["k"] == "switch":
+                de = ex.operand(t_["discr"])
+                ce = canon(de)
+                inner = strip_transparent(de.a[0]) if de.k == "discr" and de.a else None
+                own = inner is not None and inner.k == "call" and inner.site is not None and inner.site.bb in (tok_call.bb, parse_call.bb)
+                if not (ce.startswith("discr(Try@Result::branch(") or own):
+                    res.violate(rule, "stage-guard|%s" % c.rpath.rsplit("::", 1)[-1], c.where, "in generate the call of `%s` is guarded by `%s`: a file can leave the front end by another exit than the tokenizer's / parser's own error (its syntax error is then not reported exactly)" % (c.rpath, ce[:120]))
+    gdom = g.dominators()
+    for bi, b in enumerate(g.blocks):
+        if b["cleanup"] or bi not in gdom or parse_call.bb in gdom[bi]:
+            continue  # after the parser has been called its own `?` has already reported a syntax error
+        for s_ in b["stmts"]:
+            if s_["k"] == "assign" and s_["rv"]["k"] == "agg" and s_["rv"].get("adt", "").endswith("::KikiErr"):
+                from ..mir import parse_at
+                f_, l_ = parse_at(s_["span"]["at"])
+                res.violate(rule, "error-built-in-generate|%s" % s_["rv"]["variant"], "%s:%d" % (f_, l_), "generate itself constructs KikiErr::%s before the parser has run: a syntax error is then not what is reported" % s_["rv"]["variant"])
+    res.inst(rule, "stage-guards", g.where, True, "tokenizer and parser calls guarded by `?` only; no error built before the parser call")
     # map_err receives parse's result directly
     for c in g.calls():
         if c.rpath == "std::result::Result::<T, E>::map_err":
